@@ -4,9 +4,10 @@
 usage: benign_patches.py [--only ID[,ID]] [--props C01,C02] [--jobs N]
 
 Each patch is applied to a scratch copy of /repo's packages (under /var/tmp, removed afterwards) and every check runs with
---repo <copy> --no-write.  Prints one line per patch; exit status 1 when a check fires or cannot analyse, 3 when a patch no longer
+--repo <copy> --no-write.  Prints one line per patch; exit status 1 when a check fires or cannot analyse (unless the patch's meta.json lists that check under
+"declined": a form documented in DESIGN.md as outside what its rules follow - exit 2 there is the expected answer), 3 when a patch no longer
 applies to /repo's current tree (refresh it)."""
-import argparse, shutil, subprocess, sys, tempfile
+import argparse, json, shutil, subprocess, sys, tempfile
 from concurrent.futures import ThreadPoolExecutor
 from pathlib import Path
 
@@ -39,6 +40,11 @@ def one(args):
         with ThreadPoolExecutor(5) as ex:
             res = list(ex.map(lambda p: run_check(p, tmp), props))
         bad = [x for x in res if x[1] != 0]
+        # a check may decline a refactoring (exit 2, never a VIOLATION) when meta.json lists it under "declined" with the reason
+        # (a form documented as outside what the rules follow); anything else that is not silent is an alarm
+        declined = json.loads((d / "meta.json").read_text()).get("declined", {}) if (d / "meta.json").is_file() else {}
+        if bad and all(code == 2 and p in declined for p, code, _ in bad):
+            return d.name, "declined", bad
         return d.name, "silent" if not bad else "ALARM", bad
     finally:
         shutil.rmtree(tmp, ignore_errors=True)
@@ -73,7 +79,8 @@ def main():
             rc = max(rc, 1)
         if status == "STALE":
             rc = max(rc, 3)
-    print(f"{sum(1 for _, s, _ in res if s == 'silent')}/{len(res)} refactorings leave every check silent")
+    print(f"{sum(1 for _, s, _ in res if s == 'silent')}/{len(res)} refactorings leave every check silent; "
+          f"{sum(1 for _, s, _ in res if s == 'declined')} declined by a check as documented (exit 2, no verdict)")
     return rc
 
 
